@@ -1212,7 +1212,7 @@ func c18Child(r *ev.Run, batch int) {
 	}
 	n := 3
 	if !r.Quick() {
-		n = 8
+		n = 20
 	}
 	for si := 0; si < n; si++ {
 		p := prng.Derive(ev.Seed(), "C18", batch, si)
